@@ -399,12 +399,38 @@ func init() {
 	}
 }
 
-// stubFormatFloat is replaced by the C19 contract (see time_stubs.go / c19).
+// stubFormatFloat: strconv.FormatFloat(v,'f',-1,bits) of a symbolic float.
+// bits=64: the harness states the number n of fractional digits of the shortest
+// representation (AssumeDecimals; v is k/10^n with k%10 != 0 below 2^53).
+// bits=32: the shortest text that identifies float32(v) has the least m <= n such
+// that the m-digit decimal nearest to v still rounds to float32(v); which m that
+// is gets decided by the solver (one fork per m), so a change of the bit size is
+// not silently absorbed by the 64-bit contract.
 var stubFormatFloat = func(fr *frame, args []value) value {
 	s := args[0].(symF64)
 	n, ok := EX.decimals[s.t.id]
 	if !ok || args[1].(byte) != 'f' || args[2].(int) != -1 {
 		panic(unsupported{"strconv.FormatFloat of a symbolic float without a declared decimal count"})
+	}
+	switch args[3].(int) {
+	case 64:
+	case 32:
+		EX.Stubs["strconv.FormatFloat(v,'f',-1,32) of a symbolic float: least m with float32(round(v*10^m)/10^m) == float32(v)"]++
+		to32 := func(t *Term) *Term {
+			return mkApp("(_ to_fp 11 53) RNE", sortFP, mkApp("(_ to_fp 8 24) RNE", sortFP, t))
+		}
+		v32 := to32(s.t)
+		m := 0
+		for ; m < n; m++ {
+			p := mkFP(math.Pow(10, float64(m)))
+			cand := mkFPArith("div", mkFPRound("RNE", mkFPArith("mul", s.t, p)), p)
+			if EX.decide(mkApp("fp.eq", sortBool, to32(cand), v32)) {
+				break
+			}
+		}
+		n = m
+	default:
+		panic(unsupported{"strconv.FormatFloat of a symbolic float with a bit size other than 32 or 64"})
 	}
 	if n == 0 {
 		return "0"
